@@ -235,6 +235,14 @@ func (fc *FnCtx) instrWrites(in ssa.Instruction, ws *WriteSet, inOwnFn bool) {
 					}
 				}
 			}
+			if fa, ok := x.Addr.(*ssa.FieldAddr); ok {
+				n := fieldAddrName(fa)
+				for _, aa := range fc.contract.Asserts {
+					if aa.Anchor == "assign" && n != "" && aa.Var == n && aa.Set != nil {
+						ws.add("g_" + aa.Set.Name)
+					}
+				}
+			}
 		}
 		tmp := newWS()
 		fc.storeTargets(x.Addr, tmp)
